@@ -121,6 +121,9 @@ func declarations(thorough bool) []Decl {
 									continue // multi is valid only for query and formData
 								}
 								for _, v := range arrayValidations(it.t, thorough) {
+									if it.f != "" && it.t == "string" && strings.HasPrefix(v, "item") {
+										continue // item-level enum/length sets are written for plain strings
+									}
 									if !plainName && v != "" {
 										continue
 									}
